@@ -186,3 +186,17 @@ PROPS['C20'] = dict(
          'maps keyed by ints, strings, structs and arrays, the same pointer stored twice; size.Of and the first line of size.Stat (depth 0 and 3) judged against SizeOf!SizeD; distinct = distinct descriptions, non-trivial = not the nil argument',
     assumptions=TRUST + ['64-bit platform header sizes (16/24/8/8/16)', 'the value is rebuilt from its description by reflect (StructOf/SliceOf/MapOf/PtrTo); the description is never derived from the value'],
 )
+
+PROPS['C19'] = dict(
+    trace=dict(module='Trace_Readers', cfg='Trace_Readers.cfg'), builds=['race'],
+    mc=dict(quick=[mc('Readers', 'MC_Readers.cfg'), mc('Readers', 'MC_Readers_buggy.cfg', expect_violation='MemUnchanged')],
+            thorough=[mc('Readers', 'MC_Readers.cfg'), mc('Readers', 'MC_Readers_buggy.cfg', expect_violation='MemUnchanged')]),
+    need_kinds=['conc'], confirm_retries=4, trust_kinds=['RaceReport'], shards=dict(quick=4, thorough=8),
+    rule='a case is one set of shared inputs (bitmaps, rank/select indexes, keys, a shared SigBits object, plain and encoded bit strings, paths, level masks) built from a seed; in a -race build 8 goroutines released together '
+         'each run the whole list of 30 calls (Rank64/128, Select32/R64, NextOne/PrevOne, Slice aligned and unaligned, ToArray, indexes, Join/Getw, Get*, FromStr32, PathsOf, PathToIndex/Loose, IndexToPath, path accessors, '
+         'bitstr Cmp/CmpUpto/StrCmpUpto, bitword conversions, FirstDiffBits, ShardByPrefix, AllPaths, CountPrefixes with three maxitem values on ONE SigBits, Decode with five bitmap sizes) in their own orders for 3 (thorough 6) rounds, '
+         'BEFORE any sequential call; then sequential forward and reverse passes; digests of every shared object and of the exported and (via the verif hook) unexported tables before, between and after; '
+         'judged by Trace_Readers: every execution of a call carries the same result digest, every snapshot equals the initial one, a race-detector report has no action; distinct = distinct seeds',
+    assumptions=TRUST + ['the Go race detector (it reports only conflicting accesses it observed)', 'schedules are those the Go scheduler produced on this machine; they are not enumerated'],
+    level_note='Schedules are sampled (8 goroutines x 30 calls x rounds per case), not enumerated; the interleaving model (MC_Readers) is exhaustive only over 3 processes x 2 calls. Trusted: the Go race detector, TLC, the digest projection.',
+)
